@@ -33,6 +33,8 @@ import (
 
 	"verifharness/drv"
 	"verifharness/emit"
+	"verifharness/opfix"
+	"verifharness/refstore"
 
 	"github.com/zitadel/oidc/v3/pkg/client"
 	httphelper "github.com/zitadel/oidc/v3/pkg/http"
@@ -491,6 +493,7 @@ func main() {
 	extra := map[string]any{"clock_ambiguous": 0, "helper_sign_failed": 0}
 	bump := func(k string) { extra[k] = extra[k].(int) + 1 }
 
+	routerFx = newRouterFixture(baseWorld(keys))
 	for i := 0; i < n; i++ {
 		switch {
 		case i%3 == 2:
@@ -513,6 +516,115 @@ func main() {
 		fmt.Fprintln(os.Stderr, err)
 		os.Exit(2)
 	}
+}
+
+// ---- long-lived objects: ONE verifier per configuration and ONE dynamic-issuer provider
+// (both routers) serve every case of the run, so anything they remember from earlier
+// requests (other issuers, other request hosts) shows up as a wrong answer later.
+
+type pooled struct {
+	st *store
+	v  *op.JWTProfileVerifier
+}
+
+var verifierPool = map[string]*pooled{}
+
+func sharedVerifier(issuer string, vs vset, custom bool, regs []reg, clients [][2]string) (*store, *op.JWTProfileVerifier) {
+	k := fmt.Sprintf("%s|%d|%d|%v", issuer, vs.maxAge, vs.offset, custom)
+	p := verifierPool[k]
+	if p == nil {
+		st := &store{}
+		p = &pooled{st: st, v: newVerifier(st, issuer, vs, custom)}
+		verifierPool[k] = p
+	}
+	p.st.regs, p.st.clients = regs, clients
+	return p.st, p.v
+}
+
+var routerHosts = []string{"op-a.example.com", "op-b.example.com", "op-a.example.com.tenant.example.net", "op-a.example.co"}
+
+type routerCall struct {
+	legacy bool
+	cid    string // plain client_id form parameter sent along with the assertion
+	host   string
+}
+
+func (c routerCall) term() string {
+	return emit.Ctor("ERouter", emit.Bool(c.legacy), emit.Str(c.cid))
+}
+
+var routerFx *opfix.Fixture
+var rcall routerCall // the router call of the current case (entry == "ERouter")
+
+func newRouterFixture(wd world) *opfix.Fixture {
+	s := refstore.New(opfix.DefaultSigning())
+	grants := []oidc.GrantType{oidc.GrantTypeCode, oidc.GrantTypeRefreshToken, oidc.GrantTypeBearer, oidc.GrantTypeDeviceCode}
+	for _, c := range wd.clients {
+		s.Clients[c[0]] = &refstore.Client{ID: c[0], Secret: "secret-" + c[0], Redirects: []string{"https://rp.example.com/cb"},
+			App: op.ApplicationTypeWeb, Auth: oidc.AuthMethod(c[1]), RespTypes: []oidc.ResponseType{oidc.ResponseTypeCode},
+			Grants: grants, ATType: op.AccessTokenTypeBearer}
+	}
+	return must(opfix.NewWithIssuer(s, opfix.Options{}, op.IssuerFromHost("")))
+}
+
+func syncRouterKeys(f *opfix.Fixture, regs []reg) {
+	for _, c := range f.Store.Clients {
+		c.Keys = map[string]*jose.JSONWebKey{}
+	}
+	for _, x := range regs {
+		if c := f.Store.Clients[x.client]; c != nil {
+			c.Keys[x.kid] = &jose.JSONWebKey{KeyID: x.kid, Use: "sig", Key: x.key.pub}
+		}
+	}
+}
+
+// routerDeviceAuth presents the assertion as client authentication of a device
+// authorization request on the real router; identity = the client the storage
+// recorded the device authorization for.
+func routerDeviceAuth(c routerCall, tok string) (id string, err error) {
+	form := url.Values{"scope": {"openid"}, "client_assertion": {tok}, "client_assertion_type": {oidc.ClientAssertionTypeJWTAssertion}}
+	if c.cid != "" {
+		form.Set("client_id", c.cid)
+	}
+	req := httptest.NewRequest(http.MethodPost, "https://"+c.host+"/device_authorization", strings.NewReader(form.Encode()))
+	req.Header.Set("Content-Type", "application/x-www-form-urlencoded")
+	rt := opfix.Provider
+	if c.legacy {
+		rt = opfix.Legacy
+	}
+	resp := opfix.Do(routerFx.Handlers[rt], req)
+	if resp.Panic != "" {
+		panic(resp.Panic)
+	}
+	dc := resp.Str("device_code")
+	if resp.Status != http.StatusOK || dc == "" {
+		return "", fmt.Errorf("router answered %d %s", resp.Status, resp.OAuthError())
+	}
+	d := routerFx.Store.Devices[dc]
+	if d == nil || d.State == nil {
+		return "", errors.New("device authorization not stored")
+	}
+	return d.State.ClientID, nil
+}
+
+func pickRouterCall(r drv.Rand, named string) routerCall {
+	other := "c-beta"
+	if named == "c-beta" {
+		other = "c-alpha"
+	}
+	// two-identity presentations: the form names another (registered) client than the assertion
+	cid := drv.Pick(r, []string{"", "", named, other, other, "c-beta2", "c-gamma", "c-delta", "c-unknown"})
+	return routerCall{legacy: r.Bool(), cid: cid, host: drv.Pick(r, routerHosts)}
+}
+
+func cidClass(cid, named string) string {
+	switch cid {
+	case "":
+		return "none"
+	case named:
+		return "same"
+	}
+	return "other"
 }
 
 var entries = []string{"EVerify", "EVerify", "EVerify", "EClientAuth", "EClientAuth", "EPrivateKey", "EPrivateKey", "EPrivateKey", "EGrant", "EGrant"}
@@ -552,6 +664,8 @@ func runAssertion(entry, tok string, st *store, v *op.JWTProfileVerifier) (obs s
 			} else {
 				err = errors.New("handler answered without reaching the storage")
 			}
+		case "ERouter":
+			id, err = routerDeviceAuth(rcall, tok)
 		}
 	})
 	t1 = time.Now().UnixNano()
@@ -560,7 +674,7 @@ func runAssertion(entry, tok string, st *store, v *op.JWTProfileVerifier) (obs s
 		obs = "OPanic"
 	case err != nil:
 		cl := errClass(err)
-		if entry == "EGrant" {
+		if entry == "EGrant" || entry == "ERouter" {
 			cl = "EOther" // the handler's error answer is not classified
 		}
 		obs = emit.Ctor("OAssert", emit.Ctor("Err", cl))
@@ -617,9 +731,22 @@ func assertionCase(r drv.Rand, w *emit.Writer, wd world, bump func(string)) {
 	vs := drv.Pick(r, vsets)
 	custom := r.Chance(1, 7)
 	named := drv.Pick(r, []string{"c-alpha", "c-alpha", "c-beta", "c-beta", "c-gamma", "c-delta"})
+	entryTerm := entry
+	router := r.Chance(3, 10)
+	otherTenant := ""
+	if router { // the real routers of the one dynamic-issuer provider
+		entry = "ERouter"
+		rcall = pickRouterCall(r, named)
+		entryTerm = rcall.term()
+		issuer, vs, custom = "https://"+rcall.host, vset{time.Hour, time.Second}, false
+		otherTenant = "https://" + drv.Pick(r, routerHosts)
+	}
 	own := drv.Pick(r, wd.regsOf(named))
 	plan := tokPlan{kind: "jws", key: own.key, kid: own.kid, alg: drv.Pick(r, naturalAlgs(own.key.kind))}
 	tags := []string{"kind=assertion", "entry=" + entry, "helper=0"}
+	if router {
+		tags = append(tags, fmt.Sprintf("router_legacy=%v", rcall.legacy), "client_id_param="+cidClass(rcall.cid, named))
+	}
 	nowS := time.Now().Unix()
 	offS, maxS := int64(vs.offset/time.Second), int64(vs.maxAge/time.Second)
 	c := claimsD{iss: named, sub: named, aud: []string{issuer}, iat: nowS - int64(r.IntN(30)), exp: nowS + 600 + int64(r.IntN(3000))}
@@ -631,13 +758,22 @@ func assertionCase(r drv.Rand, w *emit.Writer, wd world, bump func(string)) {
 	if near {
 		nm = 1
 	}
+	crossTenant := router && !near && otherTenant != issuer && r.Chance(1, 3)
+	if crossTenant { // addressed to another tenant (request issuer) of the same provider, otherwise valid
+		nm = 1
+	}
 	for k := 0; k < nm; k++ {
 		m := drv.Pick(r, []string{"iss", "sub", "aud", "iat", "iat", "exp", "exp", "kid", "alg", "signer", "signer", "tamper", "unregister", "malformed"})
 		if near {
 			m = drv.Pick(r, []string{"near_aud", "near_aud", "near_aud", "near_sub", "near_sub", "near_iss", "near_kid"})
 		}
+		if crossTenant {
+			m = "cross_tenant"
+		}
 		muts = append(muts, m)
 		switch m {
+		case "cross_tenant":
+			c.aud = []string{otherTenant}
 		case "near_aud":
 			nmv := nearMiss(r, issuer)
 			c.aud = drv.Pick(r, [][]string{{nmv}, {nmv}, {"https://other.example.com", nmv}, {nmv, named}, {}, {nearMiss(r, issuer), nmv}})
@@ -704,6 +840,9 @@ func assertionCase(r drv.Rand, w *emit.Writer, wd world, bump func(string)) {
 			regs = nr
 		case "malformed":
 			plan.kind = drv.Pick(r, []string{"shape", "json", "empty"})
+			if router && plan.kind == "empty" { // no assertion at all is a different request (public client path)
+				plan.kind = "shape"
+			}
 		}
 	}
 	if len(muts) == 0 {
@@ -740,8 +879,10 @@ func assertionCase(r drv.Rand, w *emit.Writer, wd world, bump func(string)) {
 	case "json":
 		tok, tokTerm = malformed(r, "json", tok), "TBadJson"
 	}
-	st := &store{regs: regs, clients: wd.clients}
-	v := newVerifier(st, issuer, vs, custom)
+	st, v := sharedVerifier(issuer, vs, custom, regs, wd.clients)
+	if router {
+		syncRouterKeys(routerFx, regs)
+	}
 	var obs string
 	var t0, t1 int64
 	for try := 0; ; try++ {
@@ -754,9 +895,9 @@ func assertionCase(r drv.Rand, w *emit.Writer, wd world, bump func(string)) {
 			return
 		}
 	}
-	in := emit.Ctor("IAssert", entry, "false", vTerm(issuer, vs, custom), regsTerm(regs), clientsTerm(wd.clients), emit.Z(t0), emit.Z(t1), tokTerm)
+	in := emit.Ctor("IAssert", entryTerm, "false", vTerm(issuer, vs, custom), regsTerm(regs), clientsTerm(wd.clients), emit.Z(t0), emit.Z(t1), tokTerm)
 	w.Add(emit.Case{Input: in, Observed: obs, Tags: tags,
-		Human: map[string]any{"entry": entry, "token": tok, "issuer": issuer, "max_age": vs.maxAge.String(), "offset": vs.offset.String(),
+		Human: map[string]any{"entry": entryTerm, "token": tok, "issuer": issuer, "max_age": vs.maxAge.String(), "offset": vs.offset.String(),
 			"custom_subject_check": custom, "claims": fmt.Sprintf("%+v", c), "sig": fmt.Sprintf("%+v", d), "mutations": muts}})
 }
 
@@ -773,6 +914,14 @@ func helperCase(r drv.Rand, w *emit.Writer, wd world, bump func(string)) {
 	cands := []cand{{"c-alpha", "a1", wd.keys[0]}, {"c-alpha", "a2", wd.keys[3]}, {"c-beta", "b1", wd.keys[1]}, {"c-beta", "a1", wd.keys[4]},
 		{"c-gamma", "g1", wd.keys[6]}, {"c-gamma", "g2", wd.keys[7]}, {"c-alpha", "a1", wd.keys[2]}, {"c-beta", "a2", wd.keys[3]}}
 	cd := drv.Pick(r, cands)
+	entryTerm := entry
+	router := r.Chance(4, 10)
+	if router {
+		entry = "ERouter"
+		rcall = pickRouterCall(r, cd.client)
+		entryTerm = rcall.term()
+		issuer, vs = "https://"+rcall.host, vset{time.Hour, time.Second}
+	}
 	which := drv.Pick(r, []string{"SignedJWTProfileAssertion", "GenerateJWTProfileToken"})
 	aud := []string{issuer}
 	if r.Chance(1, 5) {
@@ -815,18 +964,20 @@ func helperCase(r drv.Rand, w *emit.Writer, wd world, bump func(string)) {
 	}
 	d := sigDesc{true, hdr.Alg, hdr.Kid, cd.key.id, true}
 	c := claimsD{pl.Iss, pl.Sub, pl.Aud, pl.Iat, pl.Exp}
-	st := &store{regs: wd.regs, clients: wd.clients}
-	v := newVerifier(st, issuer, vs, false)
+	st, v := sharedVerifier(issuer, vs, false, wd.regs, wd.clients)
+	if router {
+		syncRouterKeys(routerFx, wd.regs)
+	}
 	obs, t0, t1 := runAssertion(entry, tok, st, v)
 	if timeVerdicts(t0, int64(vs.offset), int64(vs.maxAge), c.iat, c.exp) != timeVerdicts(t1, int64(vs.offset), int64(vs.maxAge), c.iat, c.exp) {
 		bump("clock_ambiguous")
 		return
 	}
-	in := emit.Ctor("IAssert", entry, "true", vTerm(issuer, vs, false), regsTerm(wd.regs), clientsTerm(wd.clients), emit.Z(t0), emit.Z(t1),
+	in := emit.Ctor("IAssert", entryTerm, "true", vTerm(issuer, vs, false), regsTerm(wd.regs), clientsTerm(wd.clients), emit.Z(t0), emit.Z(t1),
 		emit.Ctor("TJws", d.term(), c.term()))
 	w.Add(emit.Case{Input: in, Observed: obs,
 		Tags: []string{"kind=assertion", "entry=" + entry, "helper=1", "helperfn=" + which, "keytype=" + cd.key.kind},
-		Human: map[string]any{"entry": entry, "token": tok, "issuer": issuer, "helper": which, "client": cd.client, "kid": cd.kid, "key": cd.key.id,
+		Human: map[string]any{"entry": entryTerm, "token": tok, "issuer": issuer, "helper": which, "client": cd.client, "kid": cd.kid, "key": cd.key.id,
 			"claims": fmt.Sprintf("%+v", c), "sig": fmt.Sprintf("%+v", d)}})
 }
 
